@@ -33,7 +33,12 @@ REQUIRED_THEOREMS = [
     "adaptive_euler_model_global_error", "adaptive_richardson_model_global_error", "ab2Stepper_persistent",
     "ctl_constants_sane", "rkf45_local_error_le_estimate_plus_fifth", "adaptive_rkf45_model_global_error",
     "rkf45_estimate_is_not_a_bound",
+    "euler_stage_times", "rk4_stage_times", "rkf45_stage_times", "implicit_stage_times", "cn_stage_times", "ab2_stage_times",
+    "eulerRichardson_stage_times", "fixedStepper_stage_times", "adaptive_end_any_arithmetic", "adaptive_clipped_end_exact",
+    "fixedStepper_is_iterate_field", "fixedStepper_euler_complexLike", "fixedStepper_rk4_complexLike",
+    "adaptive_terminates", "adaptive_finishes_exact_or_floor", "eulerAdaptive_finishes_exact_or_floor",
 ]
+EXTRA_PROP_FILES = ["C06Gen"]  # theorems that need no ordered field (any arithmetic / any field), stage times of whole calls
 
 # theorems of Props/C06.lean whose statement is about the constants of Generated/Tableau.lean:
 # a failing build whose errors all lie inside these theorems is a broken *generated* proof
@@ -42,6 +47,7 @@ GENERATED_DEPENDENT = [
     "rk4_tableau", "rk4_amp", "rk4_quadrature", "ab2_numba_same", "ab2_recursion", "ab2_first_step",
     "ab2_quadrature", "rkf45_rowsum", "rkf45_high_weights", "rkf45_amp4", "rkf45_amp5", "rkf45_quadrature",
     "rkf45_quadrature5", "rkf45_order4", "rkf45_order5", "ctl_constants_sane", "ctl_threshold_consistent",
+    "rk4_stage_times", "rkf45_stage_times", "ab2_stage_times",
 ]
 
 RULE = ("linear test equations u' = a u + b0 + b1 t + b2 t^2 + b3 t^3 (real and complex a; flavours: "
